@@ -23,6 +23,7 @@ class C05(EditProp):
     assumptions = ["a freshly added paragraph is empty and prints nothing: the re-read clause compares the non-empty paragraphs"]
     def streams(self, tier, rng):
         n = {"quick": 6000, "search": 20000, "thorough": 200000}[tier]
+        yield "deb822-edit", gen_edit.corpus_cases()
         yield "deb822-edit", gen_edit.edit_cases(n, rng, "p", para_ops=True)
         yield from self.store_streams(tier, rng)
 
